@@ -26,6 +26,7 @@ func init() {
 			"R5": "see C15-R3",
 			"R6": "see C08-R2/R3",
 			"R8": "the refresh loop's ticker period is cfg.HeartbeatInterval",
+			"R10": "no KeyValue operation in the functions reachable from the refresh loop by plain (non-go) calls",
 			"R9": "every function with a time.NewTicker loop that a claim-set unit starts (go) is called with a context whose context.With* ancestors include the term context (the With* call in the claim-set unit whose cancel is stored in the election object and called by every demotion, C19-R1)",
 			"R7": "from the ticker case every path to the next tick passes the goroutine issuing the refresh, an increment of a failure counter (loop-carried +1 or the health counter's Add), or a may-demote call",
 		},
@@ -141,7 +142,18 @@ func checkC03(c *Ctx) {
 				}
 			}
 		}
-		return false
+		// a may-demote call that dominates the return (statements between the demotion and
+		// the return may branch)
+		ret := b.Instrs[len(b.Instrs)-1]
+		found := false
+		eachInstr(b.Parent(), func(in ssa.Instruction) {
+			if call, ok := in.(*ssa.Call); ok && !found {
+				if g := call.Call.StaticCallee(); g != nil && m.isLib(g) && m.mayDemote(g, specFor(call, g), 0) && dominatesInstr(call, ret) {
+					found = true
+				}
+			}
+		})
+		return found
 	}
 	nPerm, nThresh := 0, 0
 	var counter *ssa.Phi
@@ -489,6 +501,26 @@ func checkC03(c *Ctx) {
 
 	// ---- R9 ---------------------------------------------------------------------
 	termLoopRule(c, "R9")
+
+	// ---- R10: the loop itself never waits for the store -----------------------------
+	// Every store operation reachable from the refresh loop by plain calls (not through a go
+	// statement, where R1 / C09-R2 bound it) blocks the loop for as long as the store hangs:
+	// no tick, no time-out, no demotion.
+	n10 := 0
+	for _, g := range sortedFns(m.staticReach(rf, false)) {
+		eachInstr(g, func(in ssa.Instruction) {
+			kv, ok := m.isKVCall(valueOf(in), "")
+			if !ok {
+				return
+			}
+			n10++
+			c.viol("R10", "no store operation inline in the refresh loop: "+kv.Call.Method.Name()+" in "+shortFn(g), in,
+				"%s is called synchronously on the refresh loop's goroutine (reached from %s by plain calls): while the store does not answer the loop neither ticks nor times out, and the instance never steps down", kv.Call.Method.Name(), shortFn(rf))
+		})
+	}
+	if n10 == 0 {
+		c.ok("R10", "no store operation inline in the refresh loop", firstInstr(rf), "%d library functions reachable from %s by plain calls, none issues a store operation", len(m.staticReach(rf, false)), shortFn(rf))
+	}
 
 	// ---- R5 (shared) ----------------------------------------------------------------
 	natsConflictRule(c, "R5")
